@@ -54,6 +54,11 @@ def gen_spec(rng, n_classes, order, unknown=False):
         if rng.random() < 0.5:
             modules["gm0"].append(["E0", [["more", "str = ''"]], "D0"])
             classes.append(("gm0", "E0", sig_a + [["extra", "int"], ["more", "str"]]))
+    # a class with a field that YAML's plain types cannot express exactly (a tuple): written by `yaml.dump` with a
+    # python tag, by `yaml.safe_dump` as a list that pydantic converts back
+    if rng.random() < 0.5:
+        modules["gm0"].append(["T0", [["x", "int"], ["lim", "Tuple[int, int] = (0, 1)"]]])
+        classes.append(("gm0", "T0", sig_a + [["lim", "tuple"]]))
     names = []
 
     def entry(depth, prefix):
@@ -62,7 +67,7 @@ def gen_spec(rng, n_classes, order, unknown=False):
         names.append(nm)
         e = {"type": f"{m}.{c}", "name": nm, "inputs": {}}
         for fn, ft in f:
-            e[fn] = rng.randrange(100) if ft == "int" else rng.choice(["a", "b", "1"])
+            e[fn] = rng.randrange(100) if ft == "int" else ([rng.randrange(5), rng.randrange(5)] if ft == "tuple" else rng.choice(["a", "b", "1"]))
         return e
 
     def system(depth, prefix):
@@ -152,6 +157,8 @@ def run(tier, seed, drv):
             res.diverge(f"tag dispatch: impl {[d['class'] for d in out['loaded']]} model {rep['dispatch']}", case)
         if not out.get("roundtrip_equal"):
             res.violate(V("roundtrip-not-equal", "dump + load gave a different configuration", site="roundtrip"), case)
+        if not out.get("roundtrip_full_equal"):
+            res.violate(V("roundtrip-not-equal", "yaml.dump + load: " + str(out.get("roundtrip_full_error", "different configuration")), site="roundtrip", dumper="yaml.dump"), case)
         tops = [e["name"] for e in spec["entries"]]
         declared = sorted(f"{s['component']}:{s['port']}>{e['name']}:{q}" for e in spec["entries"] for q, s in e["inputs"].items())
         for req, sel in zip(spec["selections"], out["selections"]):
